@@ -1,12 +1,90 @@
-import QbiceVerif.Model.EngineCore
+/-
+C03 — only justified work is re-executed, for the core engine model (`Model/EngineCore.lean`).
+The `log` field of the state records every executor invocation (`execute` appends its key).
+-/
+import QbiceVerif.Lemmas.EngineCoreEx
 namespace Qbice.Core
 
-/-- placeholder obligation while the soundness proof is being built: the specification is a
-    function of the committed inputs only (extensionality in the inputs it reads). -/
-theorem evalProg_congr_c03 (r₁ r₂ : Key → Option Val) (h : ∀ k, r₁ k = r₂ k) (p : Prog) :
-    evalProg r₁ p = evalProg r₂ p := by
-  induction p with
-  | ret v => rfl
-  | ask d cont ih => simp [evalProg, h d, ih]
+/-- "an executor is re-run only if the key was never computed or one of the dependencies it read in
+    its previous run now has a different value": every key appended to the log by a successful query
+    either has no node in the start state, or its node recorded a dependency `(d, o)` whose
+    from-scratch value on the committed inputs is no longer `o`. -/
+theorem core_exec_justified {p : Program} (wf : WF p) {s : St} (inv : Inv p s) {k fuel : Nat}
+    (hk : k < fuel) {v : Val} {s' : St} (h : query p fuel k s = .ok (v, s')) :
+    ∃ new, s'.log = s.log ++ new ∧
+      ∀ x, x ∈ new → s.nodes x = none ∨
+        ∃ n d o, s.nodes x = some n ∧ (d, o) ∈ n.deps ∧ cur p s d ≠ some o := by
+  obtain ⟨_, f, _⟩ := (query_spec wf fuel k hk s inv).ok h
+  obtain ⟨new, h1, _, h3⟩ := f.log
+  exact ⟨new, h1, fun x hx => (h3 x hx).1.2⟩
+
+/-- "at most one execution per key between two input sessions": the keys executed by a query are
+    pairwise distinct, none of them was verified in the current epoch before, and all of them are
+    verified afterwards (so no later query of the same epoch executes them again). -/
+theorem core_exec_once {p : Program} (wf : WF p) {s : St} (inv : Inv p s) {k fuel : Nat}
+    (hk : k < fuel) {v : Val} {s' : St} (h : query p fuel k s = .ok (v, s')) :
+    ∃ new, s'.log = s.log ++ new ∧ new.Nodup ∧
+      ∀ x, x ∈ new → (¬ ∃ n, s.nodes x = some n ∧ n.lastVerified = s.epoch) ∧
+        ∃ n', s'.nodes x = some n' ∧ n'.lastVerified = s'.epoch := by
+  obtain ⟨_, f, _⟩ := (query_spec wf fuel k hk s inv).ok h
+  obtain ⟨new, h1, h2, h3⟩ := f.log
+  exact ⟨new, h1, h2, fun x hx => ⟨(h3 x hx).1.1, (h3 x hx).2⟩⟩
+
+example : WF exP ∧ Inv exP exS ∧ 3 < fuelFor exP ∧ exS.log = [] ∧
+    (query exP (fuelFor exP) 3 exS).toOption.map (·.2.log) = some [2, 3] :=
+  ⟨exP_wf, exS_inv, by decide, by decide, by decide⟩
+
+/-- the same over any number of rounds (tracked engines) run within one epoch: all executions are
+    of distinct keys and each is justified with respect to the state before the first round. -/
+theorem core_rounds_exec_once {p : Program} (wf : WF p) {s : St} (inv : Inv p s)
+    {kss : List (List Key)} {outs : List (List Val)} {s' : St}
+    (h : runRounds p kss s = .ok (outs, s')) :
+    ∃ new, s'.log = s.log ++ new ∧ new.Nodup ∧
+      ∀ x, x ∈ new → (¬ ∃ n, s.nodes x = some n ∧ n.lastVerified = s.epoch) ∧
+        (s.nodes x = none ∨ ∃ n d o, s.nodes x = some n ∧ (d, o) ∈ n.deps ∧ cur p s d ≠ some o) := by
+  obtain ⟨_, _, f⟩ := (runRounds_spec wf kss s inv).ok h
+  obtain ⟨new, h1, h2, h3⟩ := f.log
+  exact ⟨new, h1, h2, fun x hx => (h3 x hx).1⟩
+
+example : Inv exP exS ∧
+    (runRounds exP [[3, 2], [2, 3, 3]] exS).toOption.map (·.2.log) = some [2, 3] :=
+  ⟨exS_inv, by decide⟩
+
+/-- "re-querying a verified key executes nothing": the state (hence the log) is unchanged. -/
+theorem core_requery_executes_nothing {p : Program} {s : St} {k : Key} {n : Node}
+    (hn : s.nodes k = some n) (hv : n.lastVerified = s.epoch) {fuel : Nat} {v : Val} {s' : St}
+    (h : query p fuel k s = .ok (v, s')) : s' = s ∧ v = n.value := by
+  cases fuel with
+  | zero => simp [query] at h
+  | succ f =>
+    simp only [query, hn, hv, if_true] at h
+    cases h; exact ⟨rfl, rfl⟩
+
+example : (exT.nodes 3).map (·.lastVerified) = some exT.epoch ∧
+    (query exP (fuelFor exP) 3 exT).toOption.map (·.1) = some 30 := ⟨by decide, by decide⟩
+
+/-- "a key all of whose recorded edges are clean is answered from its node without executing
+    anything" (whatever its verification stamp). -/
+theorem core_clean_query_executes_nothing {p : Program} {s : St} (inv : Inv p s) {k : Key} {n : Node}
+    (hn : s.nodes k = some n) (hcl : ∀ d o, (d, o) ∈ n.deps → s.dirty k d = false)
+    {fuel : Nat} {v : Val} {s' : St} (h : query p fuel k s = .ok (v, s')) :
+    s'.log = s.log ∧ v = n.value :=
+  query_clean_no_exec inv hn hcl h
+
+/-- "after a session all of whose writes were `Unchanged`, a query of a key that was verified before
+    the session executes nothing" and returns the stored value. -/
+theorem core_noop_session_executes_nothing {p : Program} {s : St} (inv : Inv p s)
+    {sets : List (Key × Val)} {rs : List SetRes} {s1 : St} (hs : session p sets s = .ok (rs, s1))
+    (hall : ∀ r, r ∈ rs → r = SetRes.unchanged) {k : Key} {n : Node} (hn : s.nodes k = some n)
+    (hv : n.lastVerified = s.epoch) {fuel : Nat} {v : Val} {s2 : St}
+    (hq : query p fuel k s1 = .ok (v, s2)) : s2.log = s.log ∧ v = n.value :=
+  noop_session_no_exec inv hs hall hn hv hq
+
+example : Inv exP exT ∧ (exT.nodes 3).map (·.lastVerified) = some exT.epoch ∧
+    (session exP [(1, 5), (0, 1)] exT).toOption.map (·.1) = some [.unchanged, .unchanged] ∧
+    (match session exP [(1, 5), (0, 1)] exT with
+      | .ok (_, s1) => (query exP (fuelFor exP) 3 s1).toOption.map (fun r => (r.1, r.2.log))
+      | .error _ => none) = some (30, exT.log) :=
+  ⟨exT_inv, by decide, by decide, by decide⟩
 
 end Qbice.Core
